@@ -84,15 +84,21 @@ def build():
     RH = TupleS(Fn, Int, Init(handler_kwargs), KEY, Opt(ObjS("Cond")), NoneT, ntname="RegisteredHandler",
                 fields=("callback", "priority", "kwargs", "key", "condition", "blocking_facility"))
 
-    def registry(n):
+    ENAME = z3.Function("event_name_of", z3.StringSort(), z3.StringSort())
+
+    def registry(n, parsed=False):
         def f(I, name):
-            """registered_handlers: the list registered for the event in scope (other events are not touched)"""
+            """registered_handlers: the list registered for the event in scope (other events are not touched); for the
+            functions that take an event STRING ('name{cond}.prio') the list is filed under the parsed name"""
             env = I.frames[0].env
             evk = env.get("event")
             if evk is None:
                 evk = I.force(env["key"]).items[1]
+            evk = I.force(evk)
+            if parsed:
+                evk = VStr(ENAME(evk.t))
             lst = I.fresh(ListOf(RH, n), name + "[ev]")
-            return I.new_dict(((I.force(evk), lst),))
+            return I.new_dict(((evk, lst),))
         return f
 
     def posted_kwargs(I, name):
@@ -245,6 +251,8 @@ def build():
         this = I.frames[0].env["self"].ref
         reg = heap.data[(I.force(I.read_field(this, "registered_handlers", heap=heap)).ref, "$")]
         lst = reg.get(I.force(event))
+        if lst is None and isinstance(I.pyconst(I.force(event)), str):
+            lst = reg.get(I.pyconst(I.force(event)))         # a registry keyed by a literal name
         if lst is None:
             return None
         return [I.force(h) for h in heap.data[(I.force(lst).ref, "$")].items]
@@ -273,9 +281,12 @@ def build():
     def gec(I, env, args, kwargs):
         """get_event_and_condition_from_string: (event name, condition, additional priority); cached, pure"""
         s = I.force(args[0])
-        return VTuple([s, I.fresh(Opt(ObjS("Cond")), I.fresh_name("cond")), VInt(z3.Int("additional_priority"))])
+        return VTuple([VStr(ENAME(s.t)), I.fresh(Opt(ObjS("Cond")), I.fresh_name("cond")),
+                       VInt(z3.Int("additional_priority"))])
+    C.helpers["ename"] = lambda I, s: VStr(ENAME(I.force(s).t))
     C.ext("EventManager.get_event_and_condition_from_string", model=gec,
-          trusted_reason="parses 'event{condition}.priority' (lru_cached, pure); here the name is returned unchanged")
+          trusted_reason="parses 'event{condition}.priority' (lru_cached, pure): (event_name_of(string), condition, "
+                         "additional priority) - verified in the parse set")
     C.ext("EventManager._verify_handlers", model=common.noop, trusted_reason="diagnostics only")
     C.ext("EventManager._pretty_log_removed_handler", model=common.noop, trusted_reason="debug logging only")
     C.globals["uuid"] = VFn("module", name="uuid")
@@ -298,19 +309,21 @@ def build():
         return VInt(z3.If(HAS_REL(h.t), z3.Function("attr_relative_priority", usort("Fn"), z3.IntSort())(h.t), 0))
     C.helpers["rel"] = rel
     C.fn("EventManager.add_handler",
-         params=dict(self=ObjS("EventManager", registered_handlers=Init(registry(2))),
+         params=dict(self=ObjS("EventManager", registered_handlers=Init(registry(2, parsed=True))),
                      event=Str, handler=Fn, priority=Int, blocking_facility=Const(None),
                      kwargs=Init(lambda I, name: I.new_dict(()))),
          requires=[("production mode (the signature-inspection prologue is abstracted: it can only raise)",
                     "self.machine.options['production']"),
-                   ("I1 holds before", "sorted_desc(event)"),
+                   ("I1 holds before", "sorted_desc(ename(event))"),
                    ],
          result=TupleS(KEY, Str, ntname="EventHandlerKey", fields=("key", "event")),
-         ensures=[("I1: the handler list stays sorted by descending priority", "sorted_desc(event)"),
-                  ("exactly the new handler is added, with priority + additional priority (+ the relative priority of "
-                   "a decorated handler), after existing handlers of equal priority",
-                   "added_one(event, handler, priority + ap() + rel(handler))"),
-                  ("the returned key names the event", "result.event == event")],
+         ensures=[("I1: the handler list stays sorted by descending priority", "sorted_desc(ename(event))"),
+                  ("exactly the new handler is added - to the list of the PARSED event name - with priority + additional "
+                   "priority (+ the relative priority of a decorated handler), after existing handlers of equal priority",
+                   "added_one(ename(event), handler, priority + ap() + rel(handler))"),
+                  ("the returned key names the parsed event - the name the handler is filed under, so that "
+                   "remove_handler_by_key(key) finds it again (a key carrying 'name{cond}' or 'name.5' would never be "
+                   "removed)", "result.event == ename(event)")],
          modifies=["self.registered_handlers.**"], raises={"AssertionError": True}, inline_calls=True,
          bounded="2 handlers already registered for the event")
     C.helpers["ap"] = lambda I: VInt(z3.Int("additional_priority"))
@@ -355,6 +368,18 @@ def build():
          modifies=["self.registered_handlers.**", "self.registered_handlers"], raises={}, inline_calls=True,
          bounded="2 handlers registered for the event")
 
+    def registry_fixed(n):
+        def f(I, name):
+            return I.new_dict((("ev", I.fresh(ListOf(RH, n), name + "[ev]")),))
+        return f
+    C.fn("EventManager.remove_handler",
+         params=dict(self=ObjS("EventManager", registered_handlers=Init(registry_fixed(3))), method=Fn),
+         ensures=[("RH1: EVERY registration of the method is removed (it may be registered more than once for one event, "
+                   "e.g. with different conditions or kwargs); the other handlers keep their order; an emptied list is "
+                   "deleted", "removed_by_callback('ev', method)")],
+         modifies=["self.registered_handlers.**", "self.registered_handlers"], raises={},
+         bounded="one event with 3 registered handlers")
+
     def replaced(I, event, handler, prio, kwargs):
         """the new list is the old one WITHOUT the registrations of this callable (when kwargs are given: only those
         registered with equal kwargs) - every other registration is kept, in order - plus exactly one new entry
@@ -388,8 +413,11 @@ def build():
         return VBool(z3.Or(cases))
     C.helpers["replaced"] = replaced
     C.fn("EventManager.replace_handler",
-         params=dict(self=RSELF, event=Str, handler=Fn, priority=Int, kwargs=Init(handler_kwargs)),
-         requires=[("production mode", "self.machine.options['production']"), ("I1 holds before", "sorted_desc(event)")],
+         params=dict(self=ObjS("EventManager", registered_handlers=Init(registry(2))), event=Str, handler=Fn, priority=Int,
+                     kwargs=Init(handler_kwargs)),
+         requires=[("production mode", "self.machine.options['production']"), ("I1 holds before", "sorted_desc(event)"),
+                   ("a plain event name: replace_handler looks the old registration up under the string as given",
+                    "ename(event) == event")],
          result=TupleS(KEY, Str, ntname="EventHandlerKey", fields=("key", "event")),
          ensures=[("RP1: only the registrations of this callable - and, when kwargs are given, only those registered with "
                    "EQUAL kwargs - are replaced; every other registration of the event (the same callable with other "
